@@ -94,6 +94,7 @@ def run(prog: Program, rep: Report, tier: str) -> None:
                             f"silently shares the port, the earlier transport registered for it is overwritten and never closed by stop()")
     rep.check(bad6 is None and n6 > 0, "R17.6", "exclusive bind", where, bad6 or "no endpoint creation explored", key="R17.6|start|reuse")
     # protocol per port with the same user callback (shared with C07/R7.4)
+    und_p = None
     bad_p = None
     for o in rets:
         cde = B.ev_calls(o, ".create_datagram_endpoint")
@@ -106,14 +107,19 @@ def run(prog: Program, rep: Report, tier: str) -> None:
                 continue
             ho, oid_, fresh_ = prod
             od = ho.fields.get("_on_datagram")
-            okcb = ho.cls is not None and ho.cls.name == "UdpClientProtocol" and B.handler_is_builder_bound_to_callback(od)
-            if not okcb:
-                bad_p = f"protocol's datagram handler is {T.show(od)[:80]}, expected partial(_parse_device_from_datagram, self._on_device)"
+            hb_ = B.handler_is_builder_bound_to_callback(od) if (ho.cls is not None and ho.cls.name == "UdpClientProtocol") else False
+            if hb_ is False:
+                bad_p = f"protocol's datagram handler is {T.show(od)[:80]}: it does not run _parse_device_from_datagram with self._on_device when the datagram arrives (bound to something else, or handed to a scheduling primitive of the event loop)"
+            elif hb_ is None:
+                und_p = f"protocol's datagram handler is {T.show(od)[:80]}: a form this rule does not judge"
             if not fresh_:
                 protos.append(oid_)
         if len(set(protos)) != len(protos):
             bad_p = "the same protocol object is shared by several ports"
-    rep.check(bad_p is None, "R17.1", "one protocol per port bound to the user callback", where, bad_p or "", key="R17.1|protocol")
+    if bad_p is None and und_p is not None:
+        rep.undecided("R17.1", "one protocol per port bound to the user callback", where, und_p)
+    else:
+        rep.check(bad_p is None, "R17.1", "one protocol per port bound to the user callback", where, bad_p or "", key="R17.1|protocol")
     # ---- R17.4 rollback
     bad4 = None
     n_checked = 0
